@@ -483,3 +483,20 @@ func NumKey(v interface{}) string {
 	}
 	return f.Text('g', 40)
 }
+
+// EncStr / DecStr: strings that are not valid UTF-8 are written to run files as "\x01hex:<hex>".
+func EncStr(s string) string {
+	if utf8.ValidString(s) && !strings.HasPrefix(s, "\x01hex:") {
+		return s
+	}
+	return "\x01hex:" + hex.EncodeToString([]byte(s))
+}
+
+func DecStr(s string) string {
+	if strings.HasPrefix(s, "\x01hex:") {
+		if b, err := hex.DecodeString(strings.TrimPrefix(s, "\x01hex:")); err == nil {
+			return string(b)
+		}
+	}
+	return s
+}
